@@ -231,7 +231,7 @@ impl<'a> Gen<'a> {
                 let b = self.pick_peer_name();
                 ("arr", Kind::PeerList, vec![peer(&a), peer(&b)])
             }
-            4 if self.profile != Profile::SeqFrag => ("o", Kind::Obj, args),
+            4 => ("o", Kind::Obj, args),
             5 if self.profile == Profile::Full => ("n", Kind::Num, args),
             _ => ("t", Kind::Arr1, args),
         };
@@ -382,7 +382,17 @@ impl<'a> Gen<'a> {
         }
         if r < 82 {
             // fold over a scalar array / iterator-free
-            let arrs: Vec<String> = env.scalars.iter().filter(|(_, k)| *k == Kind::Arr || *k == Kind::Arr1 || *k == Kind::PeerList).map(|(n, _)| n.clone()).collect();
+            let mut arrs: Vec<Opnd> = env.scalars.iter().filter(|(_, k)| *k == Kind::Arr || *k == Kind::Arr1 || *k == Kind::PeerList).map(|(n, _)| var(n)).collect();
+            // an iterable reached through a lens (the array field of an object); in the sequential fragment only where
+            // a failure would be caught
+            if self.profile != Profile::SeqFrag || env.guarded {
+                for (n, k) in &env.scalars {
+                    if *k == Kind::Obj {
+                        arrs.push(varl(n, vec![Lens::Field { v: "b".into() }]));
+                        arrs.push(varl(n, vec![Lens::Field { v: "b".into() }]));
+                    }
+                }
+            }
             if let Some(a) = arrs.choose(self.rng).cloned() {
                 let it = {
                     self.xcount += 1;
@@ -394,17 +404,27 @@ impl<'a> Gen<'a> {
                 let (body, _) = self.gen_instr(depth - 1, &eb);
                 let nx = Instr::Next { x: it.clone() };
                 let shape = self.rng.gen_range(0..10);
-                let i = if shape < 5 {
+                let i = if shape < 4 {
                     seq(body, nx)
-                } else if shape < 9 || self.profile == Profile::SeqFrag {
+                } else if shape < 7 {
                     par(body, nx)
                 } else {
-                    // instructions after next (way back)
-                    let (after, _) = self.gen_leaf(&eb);
-                    seq(body, seq(nx, after))
+                    // instructions after next (the way back out of the fold): the iterator is read again
+                    let after = if self.chance(0.7) {
+                        let p = self.pick_peer(&eb);
+                        let f = self.fname("");
+                        call(p, "t", &f, vec![var(&it)], "")
+                    } else {
+                        self.gen_leaf(&eb).0
+                    };
+                    match shape {
+                        7 => seq(body, seq(nx, after)),
+                        8 => par(nx, after),
+                        _ => seq(nx, after),
+                    }
                 };
                 let last = if self.profile == Profile::Full && self.chance(0.2) { Instr::Null } else { Instr::Absent };
-                return (Instr::Fold { it: var(&a), x: it, i: Box::new(i), last: Box::new(last) }, env.clone());
+                return (Instr::Fold { it: a, x: it, i: Box::new(i), last: Box::new(last) }, env.clone());
             }
             return self.gen_instr(depth - 1, env);
         }
